@@ -37,7 +37,7 @@ ROOT = os.path.dirname(os.path.dirname(os.path.abspath(__file__)))
 PROPERTY = "C03"
 EXPLANATION = "C03: non-interference by self-composition (two environment valuations in one path) and differential execution against a frozen reference copy of the library, on template programs with symbolic leaves."
 STUBBED_NAMES = dict(hashmodel.STUBBED_NAMES, **{"id()": ["dds.introspect", "dds.structures_utils", "dds.codecs.databricks"], "hash()": []})
-ASSUMPTIONS = base.ASSUMPTIONS + ["id() inside dds.introspect / dds.structures_utils returns disjoint sets of numbers in the two runs (concrete: symbolic identities are realised as soon as dds puts them in a set)", "the frozen reference /verif/ref/dds_ref is the library at the commit recorded in /verif/ref/FROZEN_AT"]
+ASSUMPTIONS = base.ASSUMPTIONS + ["the two runs use different working directories", "id() inside dds.introspect / dds.structures_utils returns disjoint sets of numbers in the two runs (concrete: symbolic identities are realised as soon as dds puts them in a set)", "the frozen reference /verif/ref/dds_ref is the library at the commit recorded in /verif/ref/FROZEN_AT"]
 OUTSIDE = base.OUTSIDE + ["real PYTHONHASHSEED values / set iteration order (dds sorts every set it iterates today; a change that iterates a set unsorted is caught only if it shows as a different signature in this process)", "real separate interpreters and working directories (exercised in replay only)"]
 FUNCTIONS_ENCODED = base.FUNCTIONS_ENCODED + ["dds._plotting.* (export on)", "dds_ref.* (frozen reference)"]
 BOUNDS = {"quick": {}, "thorough": {}}
@@ -81,6 +81,7 @@ def _analyse(sel, a, k_leaves, env, other_first=False):
     t = T[sel["template"]]
     w = World(t, env.get("store", "memory"), sel.get("variants"))
     _set_ids(env["idbase"])
+    os.chdir(env.get("cwd", "/"))
     dds.set_option("extra_debug", bool(env.get("extra_debug")))
     if other_first:
         # the same process has evaluated other states (and edited code) before
@@ -111,7 +112,7 @@ def env_impl(a):
     sel = h.SEL
     hashmodel.MODEL.reset()
     sA, errA = _analyse(sel, a, 0, {"idbase": 1000, "store": "memory", "extra_debug": False})
-    sB, errB = _analyse(sel, a, 0, {"idbase": 7000000, "store": sel.get("storeB", "lru"), "extra_debug": True, "export": sel.get("export", False), "eval": sel.get("evalB", False)}, other_first=sel.get("other_first", False))
+    sB, errB = _analyse(sel, a, 0, {"idbase": 7000000, "cwd": os.environ.get("VERIF_SCRATCH", "/tmp"), "store": sel.get("storeB", "lru"), "extra_debug": True, "export": sel.get("export", False), "eval": sel.get("evalB", False)}, other_first=sel.get("other_first", False))
     ok = errA is None and errB is None and sA == sB
     if not ok and not h.TWIN:
         LAST_DETAIL[0] = "signatures differ between the two environments: %r vs %r (%s %s)" % (_short(sA), _short(sB), errA, errB)
@@ -239,7 +240,7 @@ def queries(tier):
         s.update(sel)
         qs.append({"id": qid, "fn": fn, "sel": s, "timeout": timeout})
 
-    for lt in ("int", "str", "list"):
+    for lt in ("int", "str", "list", "path"):
         q("env.T1.%s" % lt, "env", "T1", leaf_type={"G": lt}, other_first=True, other_variants={"tq.m1": "b"})
     q("env.T1.export", "env", "T1", export=True, storeB="memory", fixed={"G": [3]})
     q("env.T5", "env", "T5", other_first=True, other_variants={"tq.m1": "b"})
@@ -249,7 +250,7 @@ def queries(tier):
     q("env.T8", "env", "T8", other_first=True, evalB=True)
     for tn in ("T1", "T5", "T6", "T7", "T8"):
         q("ref.%s" % tn, "ref", tn, entry_path=ENTRY_PATHS[tn], timeout=400)
-    for lt in ("str", "bool", "float", "list", "tuple", "dict"):
+    for lt in ("str", "bool", "float", "list", "tuple", "dict", "path"):
         q("ref.T1.%s" % lt, "ref", "T1", entry_path="/t1/f", leaf_type={"G": lt})
     qs.append({"id": "pinned", "fn": "pinned_query", "kind": "z3", "sel": {}, "timeout": 120, "no_twin": True})
     return qs
@@ -259,7 +260,7 @@ def queries(tier):
 # pinned corpus: native run with the real hashlib (validates the hash-model assumption)
 
 PIN_FILE = os.path.join(ROOT, "pinned", "corpus_sigs.json")
-PIN_VALUES = {"int": [0, 7, -3], "str": ["", "ab"], "bool": [True], "float": [1.5], "list": [[1, 2]], "tuple": [(1, 2)], "dict": [{"k": 1}]}
+PIN_VALUES = {"int": [0, 7, -3], "str": ["", "ab"], "bool": [True], "float": [1.5], "list": [[1, 2]], "tuple": [(1, 2)], "dict": [{"k": 1}], "path": ["a/b", "/a//b/../c"]}
 
 
 def _pin_compute():
@@ -277,8 +278,11 @@ def _pin_compute():
                 continue
             for v in vals:
                 w = World(t, "memory")
+                from pathlib import PurePosixPath
+
+                vv = PurePosixPath(v) if lt == "path" else v
                 for (mod, var, _typ, cone) in t.leaves:
-                    w.set_leaf(mod, var, v if cone else 0)
+                    w.set_leaf(mod, var, vv if cone else 0)
                 mod, fn = t.entry
                 f = getattr(w.real.mods[mod].__dict__[fn], "__wrapped__", w.real.mods[mod].__dict__[fn])
                 dds.keep(ENTRY_PATHS[tn], f)
